@@ -349,8 +349,16 @@ static void runTransport(int run, const Value &in) {
     }
     pb.solve();
     std::vector<std::vector<long long>> costs(ns, std::vector<long long>(nr));
+    long long maxc = 0;
     for (int i = 0; i < ns; ++i)
-      for (int s = 0; s < nr; ++s) costs[i][s] = pb.cost(i, s);
+      for (int s = 0; s < nr; ++s) maxc = std::max(maxc, (long long)in["cost"][i][s].asInt());
+    // The plan is judged against the costs the caller posed.  Integer costs: exactly those.  Float costs (0.37 x the instance's
+    // integers): a plan is optimal for them iff it is optimal for the integers, as long as the solver's fixed-point rounding cannot
+    // reorder path sums - guaranteed here for costs up to 1000; beyond that the solver's own integer costs are used.
+    bool posed = !in["float"].asBool() || maxc <= 1000;
+    for (int i = 0; i < ns; ++i)
+      for (int s = 0; s < nr; ++s) costs[i][s] = posed ? (long long)in["cost"][i][s].asInt() : pb.cost(i, s);
+    ev.set("costsPosed", posed);
     // back to units of 2^qscale (exact for the plans of this solver; if not, the event says so and TLC gives no verdict on the plan)
     // capacities as posed: increaseCapacity() on a problem whose capacity suffices must not change them, and the plan is judged
     // against what the caller posed
